@@ -3,11 +3,17 @@ namespace PlzVerif.Generated.C21
 def reWrap : List Char × List Char := (['^'], ['$'])
 -- ReplaceAll "+" -> "\\+"
 -- ReplaceAll "." -> "\\."
--- ReplaceAll "?" -> "."
+-- ReplaceAll "(" -> "\\("
+-- ReplaceAll ")" -> "\\)"
+-- ReplaceAll "|" -> "\\|"
+-- ReplaceAll "{" -> "\\{"
+-- ReplaceAll "}" -> "\\}"
+-- ReplaceAll "?" -> "[^/]"
 -- ReplaceAll "*" -> "[^/]*"
 -- ReplaceAll "[^/]*[^/]*" -> ".*"
 -- ReplaceAll "/.*/" -> "/(.*/)?"
-def replacements : List (List Char × List Char) := [(['+'], ['\\', '+']), (['.'], ['\\', '.']), (['?'], ['.']), (['*'], ['[', '^', '/', ']', '*']), (['[', '^', '/', ']', '*', '[', '^', '/', ']', '*'], ['.', '*']), (['/', '.', '*', '/'], ['/', '(', '.', '*', '/', ')', '?'])]
+-- ReplaceAll "^.*/" -> "^(.*/)?"
+def replacements : List (List Char × List Char) := [(['+'], ['\\', '+']), (['.'], ['\\', '.']), (['('], ['\\', '(']), ([')'], ['\\', ')']), (['|'], ['\\', '|']), (['{'], ['\\', '{']), (['}'], ['\\', '}']), (['?'], ['[', '^', '/', ']']), (['*'], ['[', '^', '/', ']', '*']), (['[', '^', '/', ']', '*', '[', '^', '/', ']', '*'], ['.', '*']), (['/', '.', '*', '/'], ['/', '(', '.', '*', '/', ')', '?']), (['^', '.', '*', '/'], ['^', '(', '.', '*', '/', ')', '?'])]
 def doubleStar : List Char := ['*', '*']
 def outDir : List Char := ['p', 'l', 'z', '-', 'o', 'u', 't']
 def hiddenPrefix : List Char := ['.']
